@@ -23,7 +23,7 @@ ASSUMPTIONS = [
     "data_type casts are restricted to value-preserving ones (int8->int16/float32, int16->float32, float64->float32, integral float32->int16)",
     "with transpose=False the array is taken as (z,y,x), as documented by the function (axis 0 slowest on disk)",
 ]
-BUDGET = {"quick": {"examples": 4000, "seconds": 60}, "thorough": {"examples": 15000, "seconds": 420}}
+BUDGET = {"quick": {"examples": 6000, "seconds": 60}, "thorough": {"examples": 15000, "seconds": 420}}
 
 DT = {"float32": np.float32, "float64": np.float64, "int16": np.int16, "int8": np.int8}
 size = st.one_of(st.integers(1, 48), st.integers(1, 9), st.sampled_from([1, 2, 3]))
